@@ -161,7 +161,8 @@ func wasteSys() *sys {
 			ch := model.PullWasteRecords(ctx, resource.WithBackpressure(true), resource.WithUpdatesOnly(true))
 			go func() {
 				for e := range ch {
-					m.reg("PullWasteRecords event", e.NewValue)
+					m.reg("PullWasteRecords event", e) // the change message itself: it is the subscriber's from here on
+					m.reg("PullWasteRecords event record", e.NewValue)
 				}
 			}()
 		}},
